@@ -1,24 +1,23 @@
-SPECIFICATION Spec
+SPECIFICATION ASpec
 CONSTANTS
   MaxLen = 4
   CapC = 40
   Eps = 2
   Heights = {4, 5, 7, 8}
-  ForkH = 8
-  LimitH = 5
+  ForkH = 5
+  LimitH = 8
   Lim0 = 3
   Lim1 = 4
-  Ns = {1, 2, 3, 4}
-  Classes = {"s", "h", "n", "o"}
+  Ns = {1, 3}
+  Classes = {"s", "n", "o"}
   MaxBig = 1
   MaxBl = 1
   MaxEx = 0
-  MaxGrp = 2
+  MaxGrp = 1
   Pres = {0, 1}
   Bls = {TRUE, FALSE}
   Exs = {FALSE}
   Ops = {"Pack"}
-  EmitOn = FALSE
-VIEW view
-INVARIANTS TypeOK CountSizeGroupOrder SkipIsRemoval Greedy ExpireInv
+  EmitOn = TRUE
+INVARIANT Export
 CHECK_DEADLOCK FALSE
